@@ -165,9 +165,10 @@ SCOutcomes(S, op, ord, ford) ==
     ELSE SCUnfrozen(S, op, ord, ford)
 
 SCUnspecified(S, op) ==
-  op.name \in {"add_simplices_from", "add_edges_from", "add_weighted_simplices_from", "add_weighted_edges_from"} /\
-    BulkNoneUnspecified(IF op.name \in {"add_weighted_simplices_from", "add_weighted_edges_from"} THEN 3 ELSE op.fmt,
-                        op.items, IF op.name = "add_edges_from" THEN None ELSE op.n2)
+  \/ op.name = "add_nodes_from" /\ (op.b2 \/ op.b4)
+  \/ op.name \in {"add_simplices_from", "add_edges_from", "add_weighted_simplices_from", "add_weighted_edges_from"} /\
+       BulkNoneUnspecified(IF op.name \in {"add_weighted_simplices_from", "add_weighted_edges_from"} THEN 3 ELSE op.fmt,
+                           op.items, IF op.name = "add_edges_from" THEN None ELSE op.n2)
 
 (* ---- action properties ---------------------------------------------------------------------- *)
 \* remove_simplex_id(i) removes exactly i and the simplices that strictly contain it
